@@ -106,7 +106,7 @@ LEVEL_NOTE = (
     "(C06_step_exact). The right-hand sides do not mention the set-iteration order, so every Boolean `equivalent` returns - in stale "
     "states too - is the same for any two iteration orders (C06_equivalent_order_independent): the comparison of Booleans on the "
     "non-exact (sparse-label) half of the cases rests on a theorem, no longer on an empirical 0-mismatch. Consumer forms: "
-    "C06_same_is_scc / C06_repf_is_scc (the pure representative function decides 'same strongly connected component of the "
+    "C06_verified_exact (the verified flag in every reachable state, over the exactly characterised class), C06_same_is_scc / C06_repf_is_scc (the pure representative function decides 'same strongly connected component of the "
     "recorded graph' after a detection followed by neutral operations) and C06_verified_scc."
 )
 
